@@ -207,7 +207,7 @@ def main(argv):
         "seed": seed,
         "level": "other",
         "coverage": {
-            "explanation": getattr(mod, "EXPLANATION", ""),
+            "explanation": getattr(mod, "EXPLANATION", "") + ("; further clauses: " + mod.EXPLANATION_2 if getattr(mod, "EXPLANATION_2", "") else ""),
             "obligations": len(distinct),
             "discharged": len(set(o.key for o in obs if o.status == "discharged") - set(o.key for o in obs if o.status != "discharged")),
             "evaluations": len(obs),
